@@ -317,7 +317,14 @@ fn check_perspective(i: u64, r: &mut Report) {
     let aspects = [0.5f32, 1.0, 4.0 / 3.0, 2.35];
     // (indices beyond the 80 base combinations re-use the tables with a fractional perturbation below)
     let nf = [(0.1f32, 100.0f32), (1.0, 2.0), (1.0, 1000.0), (0.01, 10.0)];
-    let (f, a, (near, far)) = (focals[(i % 5) as usize], aspects[(i / 5 % 4) as usize], nf[(i / 20 % 4) as usize]);
+    let (f, a, (near, far)) = if i < 80 { (focals[(i % 5) as usize], aspects[(i / 5 % 4) as usize], nf[(i / 20 % 4) as usize]) } else {
+        // thorough tier: 12 x 10 x 10 further parameter values off the natural ones
+        let j = i - 80;
+        let f2 = [0.05f32, 0.1, 0.37, 0.70710677, 1.0000001, 1.3, 1.7320508, 3.7, 5.671, 11.4, 50.0, 100.0];
+        let a2 = [0.2f32, 0.5625, 0.75, 1.0000001, 1.25, 1.6, 1.7777778, 2.0, 3.2, 5.0];
+        let n2 = [(0.1f32, 0.2f32), (1e-3, 1.0), (0.5, 500.0), (1.0, 1.01), (1e-6, 1e-3), (10.0, 1e4), (0.3, 7.7), (100.0, 110.0), (1e3, 1e6), (0.25, 250.0)];
+        (f2[(j % 12) as usize], a2[(j / 12 % 10) as usize], n2[(j / 120 % 10) as usize])
+    };
     let m = perspective(f, a, near..far);
     let key = |cl: &str, p: [f64; 3]| format!("{cl}|focal={f}|aspect={a}|{near}..{far}|{p:?}");
     let case = || obj! {"kind" => "persp", "i" => i};
@@ -351,7 +358,14 @@ fn check_perspective(i: u64, r: &mut Report) {
 
 fn check_ortho(i: u64, r: &mut Report) {
     let boxes = [([-1.0f32, -1.0, -1.0], [1.0f32, 1.0, 1.0]), ([-20.0, 0.0, 0.01], [100.0, 50.0, 100.0]), ([0.0, 0.0, 1.0], [1e-2, 10.0, 1000.0]), ([-5.0, -7.0, -3.0], [-1.0, -2.0, -0.5])];
-    let (lo, hi) = boxes[i as usize % 4];
+    let (lo, hi) = if i < 4 { boxes[i as usize] } else {
+        // thorough tier: every combination of 6 x-extents, 6 y-extents, 6 depth ranges (thin, wide, far from the origin, negative)
+        let ext = [(-1.0f32, 1.0f32), (0.37, 0.41), (-1000.0, 2000.0), (-7.3, -7.1), (1e-3, 2e-3), (5.0, 5.5)];
+        let dep = [(0.1f32, 100.0f32), (1.0, 1.001), (-50.0, 50.0), (1e-3, 1.0), (250.0, 1000.0), (-3.0, -1.0)];
+        let j = (i - 4) as usize;
+        let (x, y, z) = (ext[j % 6], ext[j / 6 % 6], dep[j / 36 % 6]);
+        ([x.0, y.0, z.0], [x.1, y.1, z.1])
+    };
     let m = orthographic(pt3(lo[0], lo[1], lo[2]), pt3(hi[0], hi[1], hi[2]));
     let lat = [-1.5f64, -1.0, -1.0 + 2e-4, 0.0, 0.3, 1.0 - 2e-4, 1.0, 1.5];
     let mut prev: Option<f64> = None;
@@ -359,14 +373,17 @@ fn check_ortho(i: u64, r: &mut Report) {
         r.eval();
         let p = [0, 1, 2].map(|k| { let (l, h) = (lo[k] as f64, hi[k] as f64); (l + h) / 2.0 + [u, v, w][k] * (h - l) / 2.0 });
         let c = m.apply(&pt3::<f32, View>(p[0] as f32, p[1] as f32, p[2] as f32)).0;
+        // f32 resolution of a normalised coordinate: the offset term (h+l)/(h-l) of the matrix is rounded at its own magnitude,
+        // and so is the input coordinate - a box far from the origin relative to its extent is resolved that much more coarsely
+        let cond: [f64; 3] = [0, 1, 2].map(|k| (lo[k].abs() as f64 + hi[k].abs() as f64) / (hi[k] as f64 - lo[k] as f64));
         let ds = [1.0 - u.abs(), 1.0 - v.abs(), 1.0 - w.abs()];
-        let geo = if ds.iter().any(|d| d.abs() <= 1e-4) { None } else { Some(ds.iter().all(|d| *d > 0.0)) };
+        let geo = if (0..3).any(|k| ds[k].abs() <= 1e-4 + 4e-7 * cond[k]) { None } else { Some(ds.iter().all(|d| *d > 0.0)) };
         if let (Some(g), Some(k)) = (geo, in_clip(c, 1e-5)) {
             if g != k { r.violation(format!("ortho-inside|box{}|{p:?}", i % 4), format!("point {p:?} {} box but clip {c:?} {}", if g { "inside" } else { "outside" }, if k { "inside" } else { "outside" }), obj! {"kind" => "ortho", "i" => i}); } else { r.nontrivial(); }
         }
         if u == 0.0 && v == 0.0 {
             let zw = c[2] as f64 / c[3] as f64;
-            if (zw - w).abs() > 1e-4 { r.violation(format!("ortho-depth|box{}|{p:?}", i % 4), format!("depth fraction {w} maps to z/w {zw}"), obj! {"kind" => "ortho", "i" => i}); }
+            if (zw - w).abs() > 1e-4 + 4e-7 * cond[2] { r.violation(format!("ortho-depth|box{}|{p:?}", i % 4), format!("depth fraction {w} maps to z/w {zw}"), obj! {"kind" => "ortho", "i" => i}); }
             if let Some(pz) = prev { if !(zw > pz) && w > -1.5 { r.violation(format!("ortho-monotone|box{}", i % 4), "depth order not preserved".into(), obj! {"kind" => "ortho", "i" => i}); } }
             prev = Some(zw);
         }
@@ -652,8 +669,8 @@ fn check_first_person(i: u64, r: &mut Report) {
 
 fn run_proj(cfg: &Cfg) -> ! {
     let mut rep = Report::new();
-    rep.merge(par_range(cfg, 80, check_perspective));
-    rep.merge(par_range(cfg, 4, check_ortho));
+    rep.merge(par_range(cfg, if cfg.quick() { 80 } else { 80 + 1200 }, check_perspective));
+    rep.merge(par_range(cfg, if cfg.quick() { 4 } else { 4 + 216 }, check_ortho));
     let mut rects = vec![];
     for l in 0..=6u32 { for rr in l + 1..=7 { for t in 0..=6u32 { for b in t + 1..=7 { rects.push((l, t, rr, b)); } } } }
     rects.extend([(20, 10, 620, 470), (0, 0, 101, 75), (3, 4, 324, 205), (0, 0, 1, 1), (10, 10, 11, 4000)]);
